@@ -136,6 +136,22 @@ def evaluate(case):
         for f in fails:
             res.fail(*f)
         return res
+    if "splice" in case:
+        text = "".join(a + b for a, b in zip(case["splice"], case["seps"]))
+        want = []
+        for src in case["splice"]:
+            lx = L.lex(src, strict_escapes=False)
+            want += [(c.name, [a.replace("\r\n", "\n") for a in c.flat()]) for c in lx.commands]
+        try:
+            got, err = parse_commands(text)
+            got = [(nm, [a.replace("\r\n", "\n") for a in ar]) for nm, ar in got]
+            if err.strip():
+                res.fail("splice:lexer-skipped-characters", err.strip()[:160])
+            if got != want:
+                res.fail("splice:argument-boundaries", "spliced commands differ")
+        except Exception as e:
+            res.fail("splice:rejected:" + exc_key(e), repr(e)[:200])
+        return res
     module, text, prelude_cmds = build(case)
     forms, feats = features(module)
     lay_feats = set()
@@ -322,11 +338,74 @@ def _corpus_one(path):
     return path, fails, stats
 
 
+def _index_one(path):
+    try:
+        text = open(path, "rb").read().decode("utf-8")
+    except Exception:
+        return []
+    lx = L.lex(text, strict_escapes=False)
+    if lx.error is not None:
+        return []
+    out = []
+    for c in lx.commands:
+        if c.legacy or c.end - c.start > 1500:
+            continue
+        out.append((text[c.start:c.end], c.name, c.flat()))
+    return out[:80]
+
+
+def splice_campaign(ctx, files):
+    """Hypothesis draws commands from different corpus files and splices them into one file: the same commands in a
+    new context (neighbouring comments, brackets, indentation gone) must keep their argument boundaries."""
+    import hypothesis
+    from hypothesis import given, settings, HealthCheck, Phase
+    with multiprocessing.Pool(16) as pool:
+        index = [c for part in pool.map(_index_one, files[::3], chunksize=8) for c in part]
+    if not index:
+        return
+    n = 300 if ctx.tier == "quick" else 3000
+    seps = ["\n", "\n\n", " # trailing comment\n", "\n#[[ block ]]\n", "\n  ", "\r\n", "\n#[=[\nx(\n]=]\n", " #[[c]]\n"]
+    strat = st.lists(st.tuples(st.integers(0, len(index) - 1), st.integers(0, len(seps) - 1)), min_size=1, max_size=12)
+    count = {"n": 0}
+
+    @hypothesis.seed(ctx.seed * 7919 + 5)
+    @settings(max_examples=n, deadline=None, database=None, phases=[Phase.generate],
+              suppress_health_check=list(HealthCheck))
+    @given(strat)
+    def run(picks):
+        text = ""
+        want = []
+        for i, s_ in picks:
+            src, name, args = index[i]
+            text += src + seps[s_]
+            want.append((name, [a.replace("\r\n", "\n") for a in args]))
+        r = Result(nontrivial=len({i for i, _ in picks}) >= 3)
+        r.labels.append("corpus-splice")
+        try:
+            got, err = parse_commands(text)
+            got = [(nm, [a.replace("\r\n", "\n") for a in ar]) for nm, ar in got]
+            if err.strip():
+                r.fail("splice:lexer-skipped-characters", err.strip()[:160])
+            if got != want:
+                k = next((j for j, (a, b) in enumerate(zip(got, want)) if a != b), min(len(got), len(want)))
+                r.fail("splice:argument-boundaries", f"command {k}: expected {want[k] if k < len(want) else None!r} "
+                                                     f"got {got[k] if k < len(got) else None!r}"[:400])
+        except Exception as e:
+            r.fail("splice:rejected:" + exc_key(e), repr(e)[:200])
+        if r.nontrivial and count["n"] < 2:
+            r.sample = {"spliced": short(text, 300)}
+            count["n"] += 1
+        ctx.record({"splice": [index[i][0] for i, _ in picks], "seps": [seps[s_] for _, s_ in picks]}, r)
+    run()
+    ctx.note("corpus_commands_indexed", len(index))
+
+
 def extra(ctx):
     files = corpus_files()
     if not files:
         ctx.note("corpus_files", 0)
         return
+    splice_campaign(ctx, files)
     with multiprocessing.Pool(16) as pool:
         results = pool.map(_corpus_one, files, chunksize=8)
     tot = {}
